@@ -3659,7 +3659,7 @@ def get_order(shape, snake_winding, priority=None):
     if not any(snake_winding):
         # optimize: can use np.mgrid
         res = np.mgrid[tuple([slice(0, L) for L in shape])]
-        return res.reshape((len(shape), np.prod(shape))).T
+        return res.reshape((len(shape), int(np.prod(shape)))).T
     # some snake: generate direction by direction, each time adding a new column to `order`
     snake_winding = tuple(snake_winding) + (False,)
     dim = len(shape)
